@@ -1,0 +1,270 @@
+//go:build verif
+
+package lexer
+
+// Contracts for the gowp verifier (/verif). Comment-only file.
+//
+// Ghost state of a lexer: #lastEnd is the end offset of the last token sent on l.tokens,
+// #terminal tells whether the end-of-input or an error token has been sent. Both are set
+// (ghostset) only by emit and emitError, the only two functions that send on l.tokens.
+
+//@ ghost field lexer.#lastEnd int
+//@ ghost field lexer.#terminal bool
+
+//@ spec macro LInv(l *lexer) Bool = l != nil && 0 <= l.#lastEnd && l.#lastEnd <= l.start && l.start <= l.pos && l.pos <= len(l.input) && 0 <= l.width && l.width <= 4 && l.tokens != nil && l.tokens.#closed == 0
+
+// The rune that next() decodes at offset i of s.
+//@ spec def runeAt(s String, i Int) Int = utf8rune(str_substr(s, i, len(s) - i))
+
+// Termination of the state machine: every state function either decreases Phi (bytes left to
+// read plus bytes left to emit) or hands over to a state of lower rank.
+//@ spec macro Phi(l *lexer) Int = 2*len(l.input) - l.pos - l.start
+//@ spec def rank(f Int) Int = ite(f == fn(lexSpace), 3, ite(f == fn(lexToken), 2, ite(f == fn(lexPredicateOrLiteral), 1, 0)))
+//@ spec macro statePre(l *lexer, f Int) Bool = (f == fn(lexBinding) ==> l.pos > l.start) && (f == fn(lexKeyword) ==> l.pos < len(l.input) && isLetter(runeAt(l.input, l.pos))) && ((f == fn(lexPredicateGlobalTime) || f == fn(lexTime)) ==> l.pos < len(l.input))
+
+//@ props C16 C08
+
+//@ func (l *lexer) next
+//@   requires LInv(l)
+//@   modifies l.pos, l.width, l.line, l.lastLine, l.col, l.lastCol
+//@   ensures[inv] LInv(l)
+//@   ensures[eof] old(l.pos) >= len(l.input) ==> result == eof && l.width == 0 && l.pos == old(l.pos)
+//@   ensures[advance] old(l.pos) < len(l.input) ==> result != eof && result >= 0 && l.width >= 1 && l.pos == old(l.pos) + l.width && result == runeAt(l.input, old(l.pos))
+
+//@ func (l *lexer) backup
+//@   requires LInv(l) && l.pos - l.width >= l.start
+//@   modifies l.pos, l.col, l.line
+//@   ensures[inv] LInv(l) && l.pos == old(l.pos) - l.width
+
+//@ func (l *lexer) peek
+//@   requires LInv(l)
+//@   modifies l.pos, l.width, l.line, l.lastLine, l.col, l.lastCol
+//@   ensures[inv] LInv(l) && l.pos == old(l.pos)
+//@   ensures[eof] (result == eof) <==> l.pos >= len(l.input)
+//@   ensures[rune] l.pos < len(l.input) ==> result == runeAt(l.input, l.pos)
+
+//@ func (l *lexer) ignore
+//@   requires LInv(l)
+//@   modifies l.start
+//@   ensures[inv] LInv(l) && l.start == l.pos
+
+//@ func (l *lexer) accept
+//@   requires LInv(l)
+//@   modifies l.pos, l.width, l.line, l.lastLine, l.col, l.lastCol
+//@   ensures[inv] LInv(l) && l.pos >= old(l.pos)
+
+//@ func (l *lexer) consume
+//@   requires LInv(l)
+//@   modifies l.pos, l.width, l.line, l.lastLine, l.col, l.lastCol
+//@   ensures[inv] LInv(l) && l.pos >= old(l.pos)
+//@   loop 0 invariant LInv(l) && l.pos >= old(l.pos)
+
+// emit and emitError: the token sent is the slice input[start:pos]; it starts at or after the
+// end of the previous token (#lastEnd <= start is part of LInv) and nothing was sent after a
+// terminal token (requires !#terminal).
+//@ func (l *lexer) emit
+//@   requires LInv(l) && !l.#terminal
+//@   modifies l.start, l.lastTokenType, l.#lastEnd, l.#terminal, l.tokens.#out
+//@   ghostset l.#lastEnd = l.pos
+//@   ghostset l.#terminal = (t == ItemEOF)
+//@   ensures[inv] LInv(l) && l.start == l.pos && l.lastTokenType == t
+//@   ensures[one-token] l.tokens.#len == old(l.tokens.#len) + 1
+//@   ensures[substring] l.tokens.#out[old(l.tokens.#len)].Type == t && l.tokens.#out[old(l.tokens.#len)].Text == l.input[old(l.start):l.pos]
+
+//@ func (l *lexer) emitError
+//@   requires LInv(l) && !l.#terminal
+//@   modifies l.start, l.#lastEnd, l.#terminal, l.tokens.#out
+//@   ghostset l.#lastEnd = l.pos
+//@   ghostset l.#terminal = true
+//@   ensures[inv] LInv(l) && l.start == l.pos
+//@   ensures[one-token] l.tokens.#len == old(l.tokens.#len) + 1
+//@   ensures[substring] l.tokens.#out[old(l.tokens.#len)].Type == ItemError && l.tokens.#out[old(l.tokens.#len)].Text == l.input[old(l.start):l.pos]
+
+//@ func consumeKeyword
+//@   requires LInv(l) && !l.#terminal && t != ItemEOF
+//@   modifies l.start, l.pos, l.width, l.line, l.lastLine, l.col, l.lastCol, l.lastTokenType, l.#lastEnd, l.#terminal, l.tokens.#out
+//@   ensures[inv] LInv(l) && !l.#terminal && l.pos >= old(l.pos) && l.start >= old(l.start)
+//@   ensures[progress] old(l.pos) < len(l.input) && isLetter(runeAt(l.input, old(l.pos))) ==> l.pos > old(l.pos)
+//@   loop 0 invariant LInv(l) && !l.#terminal && l.pos >= old(l.pos) && l.start == old(l.start)
+//@   loop 0 decreases len(l.input) - l.pos
+
+//@ func isSingleSymbolToken
+//@   requires LInv(l) && !l.#terminal && tt != ItemEOF && symbol >= 0
+//@   modifies l.start, l.pos, l.width, l.line, l.lastLine, l.col, l.lastCol, l.lastTokenType, l.#lastEnd, l.#terminal, l.tokens.#out
+//@   ensures[inv] LInv(l) && !l.#terminal && l.pos >= old(l.pos) && l.start >= old(l.start)
+//@   ensures[state] result == nil || result == fn(lexSpace)
+//@   ensures[progress] result != nil ==> l.pos > old(l.pos)
+
+// The state machine: run calls state functions until one returns nil; a state function
+// returns nil exactly when it has sent the terminal token.
+//@ func (l *lexer) run
+//@   opt terminates
+//@   requires LInv(l) && !l.#terminal
+//@   modifies l.start, l.pos, l.width, l.line, l.lastLine, l.col, l.lastCol, l.lastTokenType, l.#lastEnd, l.#terminal, l.tokens.#out, l.tokens.#closed
+//@   ensures[one-terminal-token] l.#terminal
+//@   ensures[closed-once] l.tokens.#closed == 1
+//@   loop 0 invariant[inv] LInv(l)
+//@   loop 0 invariant[nil-iff-terminal] (state == nil) <==> l.#terminal
+//@   loop 0 invariant[known-state] state == nil || isStateFn(state)
+//@   loop 0 invariant[state-pre] statePre(l, state)
+//@   loop 0 decreases ite(state == nil, 0, 1), Phi(l), rank(state)
+
+//@ spec def isStateFn(f Int) Bool = f == fn(lexToken) || f == fn(lexBinding) || f == fn(lexSpace) || f == fn(lexKeyword) || f == fn(lexFilterFunction) || f == fn(lexNode) || f == fn(lexBlankNode) || f == fn(lexPredicateOrLiteral) || f == fn(lexPredicate) || f == fn(lexPredicateGlobalTime) || f == fn(lexTime) || f == fn(lexLiteral)
+
+//@ func lexToken
+//@   opt terminates
+//@   requires LInv(l) && !l.#terminal && statePre(l, fn(lexToken))
+//@   modifies l.start, l.pos, l.width, l.line, l.lastLine, l.col, l.lastCol, l.lastTokenType, l.#lastEnd, l.#terminal, l.tokens.#out
+//@   ensures[inv] LInv(l) && l.pos >= old(l.pos) && l.start >= old(l.start)
+//@   ensures[nil-iff-terminal] (result == nil) <==> l.#terminal
+//@   ensures[known-state] result == nil || isStateFn(result)
+//@   ensures[next-pre] statePre(l, result)
+//@   ensures[progress] result != nil ==> Phi(l) < old(Phi(l)) || (Phi(l) == old(Phi(l)) && rank(result) < 2)
+//@   loop 0 invariant LInv(l) && !l.#terminal && l.pos >= old(l.pos) && l.start >= old(l.start)
+//@   loop 0 decreases len(l.input) - l.pos
+
+//@ func lexBinding
+//@   opt terminates
+//@   requires LInv(l) && !l.#terminal && statePre(l, fn(lexBinding))
+//@   modifies l.start, l.pos, l.width, l.line, l.lastLine, l.col, l.lastCol, l.lastTokenType, l.#lastEnd, l.#terminal, l.tokens.#out
+//@   ensures[inv] LInv(l) && l.pos >= old(l.pos) && l.start >= old(l.start)
+//@   ensures[nil-iff-terminal] (result == nil) <==> l.#terminal
+//@   ensures[known-state] result == nil || isStateFn(result)
+//@   ensures[next-pre] statePre(l, result)
+//@   ensures[progress] result != nil ==> Phi(l) < old(Phi(l)) || (Phi(l) == old(Phi(l)) && rank(result) < 0)
+//@   loop 0 invariant LInv(l) && !l.#terminal && l.pos >= old(l.pos) && l.start >= old(l.start) && l.start == old(l.start)
+//@   loop 0 decreases len(l.input) - l.pos
+
+//@ func lexSpace
+//@   opt terminates
+//@   requires LInv(l) && !l.#terminal && statePre(l, fn(lexSpace))
+//@   modifies l.start, l.pos, l.width, l.line, l.lastLine, l.col, l.lastCol, l.lastTokenType, l.#lastEnd, l.#terminal, l.tokens.#out
+//@   ensures[inv] LInv(l) && l.pos >= old(l.pos) && l.start >= old(l.start)
+//@   ensures[nil-iff-terminal] (result == nil) <==> l.#terminal
+//@   ensures[known-state] result == nil || isStateFn(result)
+//@   ensures[next-pre] statePre(l, result)
+//@   ensures[progress] result != nil ==> Phi(l) < old(Phi(l)) || (Phi(l) == old(Phi(l)) && rank(result) < 3)
+//@   loop 0 invariant LInv(l) && !l.#terminal && l.pos >= old(l.pos) && l.start >= old(l.start)
+//@   loop 0 decreases len(l.input) - l.pos
+
+//@ func lexKeyword
+//@   opt terminates
+//@   requires LInv(l) && !l.#terminal && statePre(l, fn(lexKeyword))
+//@   modifies l.start, l.pos, l.width, l.line, l.lastLine, l.col, l.lastCol, l.lastTokenType, l.#lastEnd, l.#terminal, l.tokens.#out
+//@   ensures[inv] LInv(l) && l.pos >= old(l.pos) && l.start >= old(l.start)
+//@   ensures[nil-iff-terminal] (result == nil) <==> l.#terminal
+//@   ensures[known-state] result == nil || isStateFn(result)
+//@   ensures[next-pre] statePre(l, result)
+//@   ensures[progress] result != nil ==> Phi(l) < old(Phi(l)) || (Phi(l) == old(Phi(l)) && rank(result) < 0)
+//@   loop 0 invariant LInv(l) && !l.#terminal && l.pos >= old(l.pos) && l.start >= old(l.start)
+//@   loop 0 decreases len(l.input) - l.pos
+
+//@ func lexFilterFunction
+//@   opt terminates
+//@   requires LInv(l) && !l.#terminal && statePre(l, fn(lexFilterFunction))
+//@   modifies l.start, l.pos, l.width, l.line, l.lastLine, l.col, l.lastCol, l.lastTokenType, l.#lastEnd, l.#terminal, l.tokens.#out
+//@   ensures[inv] LInv(l) && l.pos >= old(l.pos) && l.start >= old(l.start)
+//@   ensures[nil-iff-terminal] (result == nil) <==> l.#terminal
+//@   ensures[known-state] result == nil || isStateFn(result)
+//@   ensures[next-pre] statePre(l, result)
+//@   ensures[progress] result != nil ==> Phi(l) < old(Phi(l)) || (Phi(l) == old(Phi(l)) && rank(result) < 0)
+//@   loop 0 invariant LInv(l) && !l.#terminal && l.pos >= old(l.pos) && l.start >= old(l.start) && (old(l.pos) < len(l.input) ==> l.pos > old(l.pos))
+//@   loop 0 decreases len(l.input) - l.pos
+
+//@ func lexNode
+//@   opt terminates
+//@   requires LInv(l) && !l.#terminal && statePre(l, fn(lexNode))
+//@   modifies l.start, l.pos, l.width, l.line, l.lastLine, l.col, l.lastCol, l.lastTokenType, l.#lastEnd, l.#terminal, l.tokens.#out
+//@   ensures[inv] LInv(l) && l.pos >= old(l.pos) && l.start >= old(l.start)
+//@   ensures[nil-iff-terminal] (result == nil) <==> l.#terminal
+//@   ensures[known-state] result == nil || isStateFn(result)
+//@   ensures[next-pre] statePre(l, result)
+//@   ensures[progress] result != nil ==> Phi(l) < old(Phi(l)) || (Phi(l) == old(Phi(l)) && rank(result) < 0)
+//@   loop 0 invariant LInv(l) && !l.#terminal && l.pos >= old(l.pos) && l.start >= old(l.start) && (done ==> l.pos > old(l.pos))
+//@   loop 0 decreases ite(done, 0, 1), len(l.input) - l.pos
+
+//@ func lexBlankNode
+//@   opt terminates
+//@   requires LInv(l) && !l.#terminal && statePre(l, fn(lexBlankNode))
+//@   modifies l.start, l.pos, l.width, l.line, l.lastLine, l.col, l.lastCol, l.lastTokenType, l.#lastEnd, l.#terminal, l.tokens.#out
+//@   ensures[inv] LInv(l) && l.pos >= old(l.pos) && l.start >= old(l.start)
+//@   ensures[nil-iff-terminal] (result == nil) <==> l.#terminal
+//@   ensures[known-state] result == nil || isStateFn(result)
+//@   ensures[next-pre] statePre(l, result)
+//@   ensures[progress] result != nil ==> Phi(l) < old(Phi(l)) || (Phi(l) == old(Phi(l)) && rank(result) < 0)
+//@   loop 0 invariant LInv(l) && !l.#terminal && l.pos >= old(l.pos) && l.start >= old(l.start) && l.pos > old(l.pos)
+//@   loop 0 decreases len(l.input) - l.pos
+
+//@ func lexPredicateOrLiteral
+//@   opt terminates
+//@   requires LInv(l) && !l.#terminal && statePre(l, fn(lexPredicateOrLiteral))
+//@   modifies l.start, l.pos, l.width, l.line, l.lastLine, l.col, l.lastCol, l.lastTokenType, l.#lastEnd, l.#terminal, l.tokens.#out
+//@   ensures[inv] LInv(l) && l.pos >= old(l.pos) && l.start >= old(l.start)
+//@   ensures[nil-iff-terminal] (result == nil) <==> l.#terminal
+//@   ensures[known-state] result == nil || isStateFn(result)
+//@   ensures[next-pre] statePre(l, result)
+//@   ensures[progress] result != nil ==> Phi(l) < old(Phi(l)) || (Phi(l) == old(Phi(l)) && rank(result) < 1)
+
+//@ func lexPredicate
+//@   opt terminates
+//@   requires LInv(l) && !l.#terminal && statePre(l, fn(lexPredicate))
+//@   modifies l.start, l.pos, l.width, l.line, l.lastLine, l.col, l.lastCol, l.lastTokenType, l.#lastEnd, l.#terminal, l.tokens.#out
+//@   ensures[inv] LInv(l) && l.pos >= old(l.pos) && l.start >= old(l.start)
+//@   ensures[nil-iff-terminal] (result == nil) <==> l.#terminal
+//@   ensures[known-state] result == nil || isStateFn(result)
+//@   ensures[next-pre] statePre(l, result)
+//@   ensures[progress] result != nil ==> Phi(l) < old(Phi(l)) || (Phi(l) == old(Phi(l)) && rank(result) < 0)
+//@   loop 0 invariant LInv(l) && !l.#terminal && l.pos >= old(l.pos) && l.start >= old(l.start) && (old(l.pos) < len(l.input) ==> l.pos > old(l.pos)) && (done ==> old(l.pos) < len(l.input))
+//@   loop 0 decreases ite(done, 0, 1), len(l.input) - l.pos
+//@   loop 1 invariant LInv(l) && !l.#terminal && l.pos >= old(l.pos) && l.start >= old(l.start) && l.pos >= atentry(l.pos) && (old(l.pos) < len(l.input) ==> l.pos > old(l.pos))
+//@   loop 1 decreases len(l.input) - l.pos
+
+//@ func lexPredicateGlobalTime
+//@   opt terminates
+//@   requires LInv(l) && !l.#terminal && statePre(l, fn(lexPredicateGlobalTime))
+//@   modifies l.start, l.pos, l.width, l.line, l.lastLine, l.col, l.lastCol, l.lastTokenType, l.#lastEnd, l.#terminal, l.tokens.#out
+//@   ensures[inv] LInv(l) && l.pos >= old(l.pos) && l.start >= old(l.start)
+//@   ensures[nil-iff-terminal] (result == nil) <==> l.#terminal
+//@   ensures[known-state] result == nil || isStateFn(result)
+//@   ensures[next-pre] statePre(l, result)
+//@   ensures[progress] result != nil ==> Phi(l) < old(Phi(l)) || (Phi(l) == old(Phi(l)) && rank(result) < 0)
+//@   loop 0 invariant LInv(l) && !l.#terminal && l.pos >= old(l.pos) && l.start >= old(l.start) && l.pos > old(l.pos)
+//@   loop 0 decreases len(l.input) - l.pos
+//@   loop 1 invariant LInv(l) && !l.#terminal && l.pos >= old(l.pos) && l.start >= old(l.start) && l.pos >= atentry(l.pos) && (old(l.pos) < len(l.input) ==> l.pos > old(l.pos))
+//@   loop 1 decreases len(l.input) - l.pos
+
+//@ func lexTime
+//@   opt terminates
+//@   requires LInv(l) && !l.#terminal && statePre(l, fn(lexTime))
+//@   modifies l.start, l.pos, l.width, l.line, l.lastLine, l.col, l.lastCol, l.lastTokenType, l.#lastEnd, l.#terminal, l.tokens.#out
+//@   ensures[inv] LInv(l) && l.pos >= old(l.pos) && l.start >= old(l.start)
+//@   ensures[nil-iff-terminal] (result == nil) <==> l.#terminal
+//@   ensures[known-state] result == nil || isStateFn(result)
+//@   ensures[next-pre] statePre(l, result)
+//@   ensures[progress] result != nil ==> Phi(l) < old(Phi(l)) || (Phi(l) == old(Phi(l)) && rank(result) < 0)
+//@   loop 0 invariant LInv(l) && !l.#terminal && l.pos >= old(l.pos) && l.start >= old(l.start) && l.pos > old(l.pos)
+//@   loop 0 decreases len(l.input) - l.pos
+
+//@ func lexLiteral
+//@   opt terminates
+//@   requires LInv(l) && !l.#terminal && statePre(l, fn(lexLiteral))
+//@   modifies l.start, l.pos, l.width, l.line, l.lastLine, l.col, l.lastCol, l.lastTokenType, l.#lastEnd, l.#terminal, l.tokens.#out
+//@   ensures[inv] LInv(l) && l.pos >= old(l.pos) && l.start >= old(l.start)
+//@   ensures[nil-iff-terminal] (result == nil) <==> l.#terminal
+//@   ensures[known-state] result == nil || isStateFn(result)
+//@   ensures[next-pre] statePre(l, result)
+//@   ensures[progress] result != nil ==> Phi(l) < old(Phi(l)) || (Phi(l) == old(Phi(l)) && rank(result) < 0)
+//@   loop 0 invariant LInv(l) && !l.#terminal && l.pos >= old(l.pos) && l.start >= old(l.start) && (old(l.pos) < len(l.input) ==> l.pos > old(l.pos)) && (done ==> old(l.pos) < len(l.input))
+//@   loop 0 decreases ite(done, 0, 1), len(l.input) - l.pos
+//@   loop 1 invariant LInv(l) && !l.#terminal && l.pos >= old(l.pos) && l.start >= old(l.start) && l.pos >= atentry(l.pos) && (old(l.pos) < len(l.input) ==> l.pos > old(l.pos))
+//@   loop 1 decreases len(l.input) - l.pos
+
+// lex builds the lexer and hands it to the goroutine running the state machine; the initial
+// state satisfies run's precondition (checked at the go statement).
+//@ func lex
+//@   opt go-handoff true
+//@   requires capacity >= 0
+//@   ensures[value] result0 != nil && result1 == result0.tokens && result1 != nil
+
+//@ func New
+//@   ensures[value] result != nil
